@@ -77,8 +77,9 @@ def check(run, project):
                module=c.module, node=c.node, func=k, construct=f"{k} field names vs invisible set")
     for k, c in L.all.items():
         if L.is_dataclass(c):
-            run.ob("A2", c.name.startswith(prefix) == c.has("_selected_by"), f"{k}: name test '{prefix}' <=> is a union",
-                   f"{k} {'is named like a union but has no _selected_by' if c.name.startswith(prefix) else 'is a union but not named ' + prefix + '*'}: "
+            named = prefix[1](c, L)
+            run.ob("A2", named == c.has("_selected_by"), f"{k}: `{prefix[0]}` <=> is a union",
+                   f"{k} {'passes the union test `' + prefix[0] + '` but has no _selected_by' if named else 'is a union but fails the test `' + prefix[0] + '`'}: "
                    "its absent members are (not) hidden inconsistently with the decoder", module=c.module, node=c.node, func=k,
                    construct=f"{k} union naming")
     # ---- A4
@@ -150,6 +151,7 @@ def a123(run, mod, fn, L):
     run.require(len(top) >= 3, "C11: fewer than three paths through obj_to_events")
     loops = [s for s in ast.walk(fn) if isinstance(s, ast.For)]
     names, prefixes = set(), set()
+    union_tests = {}
     n_struct = n_list = n_leaf = 0
     for p in top:
         P = "path" if p.env.get("path") is None else paths.text(p.env["path"])
@@ -219,10 +221,20 @@ def a123(run, mod, fn, L):
         U = I = None
         for b in body:
             for a_, _v, _n in b.cond:
-                m = re.fullmatch(r"type\(obj\)\.__name__\.startswith\('(\w+)'\)", a_)
-                if m:
-                    U = a_
-                    prefixes.add(m.group(1))
+                if "type(obj)" in a_:
+                    # the union test: any predicate over the object's type the layout model can evaluate (a name prefix,
+                    # an attribute the union decorator sets, ...); A2 folds it over every layout class
+                    from .c01 import type_atom
+                    pred = type_atom(a_, "type(obj)")
+                    if pred is not None:
+                        try:
+                            pred(L.Command, L)
+                        except AnalysisError:
+                            pred = None
+                    if pred is not None:
+                        U = a_
+                        prefixes.add(a_)
+                        union_tests[a_] = pred
                 m = re.fullmatch(re.escape(f_) + r"\.name in (.+)", a_)
                 if m:
                     I = a_
@@ -258,7 +270,8 @@ def a123(run, mod, fn, L):
                    node=b.node or (b.cond[-1][2] if b.cond else lp), func=fn.name, construct=kind)
     run.require(n_struct >= 1 and n_list >= 1 and n_leaf >= 1, "C11: struct / list / leaf paths of obj_to_events not all found")
     run.require(len(prefixes) == 1, "C11: union-name test of obj_to_events not found")
-    return names, prefixes.pop()
+    u = prefixes.pop()
+    return names, (u, union_tests[u])
 
 
 def decided(run, rule, mod, fn, spec, default, construct, what, values=None, atoms_needed=(), implies=()):
@@ -276,6 +289,23 @@ def decided(run, rule, mod, fn, spec, default, construct, what, values=None, ato
     return ps
 
 
+def _resolver_call(dc):
+    """(the call R(...), name of the key variable) when dc is `{k: _to_obj(R(...), v) for k, v in dict_obj.items()}`"""
+    if not (isinstance(dc, ast.DictComp) and len(dc.generators) == 1):
+        return None
+    g = dc.generators[0]
+    if g.ifs or g.is_async or norm(g.iter) != "dict_obj.items()" or not (isinstance(g.target, ast.Tuple) and len(g.target.elts) == 2
+                                                                         and all(isinstance(t, ast.Name) for t in g.target.elts)):
+        return None
+    k, v = (t.id for t in g.target.elts)
+    c = dc.value
+    if not (isinstance(dc.key, ast.Name) and dc.key.id == k and isinstance(c, ast.Call) and call_name(c) == "_to_obj" and len(c.args) == 2
+            and not c.keywords and isinstance(c.args[1], ast.Name) and c.args[1].id == v and isinstance(c.args[0], ast.Call)
+            and isinstance(c.args[0].func, ast.Name)):
+        return None
+    return c.args[0], k
+
+
 def a4(run, project, mod, roles):
     d2o = mod.functions().get("_dict_to_obj")
     e2o = mod.functions().get("events_to_obj")
@@ -284,12 +314,18 @@ def a4(run, project, mod, roles):
         raise AnalysisError("C11: _dict_to_obj / events_to_obj / _to_obj not found")
     # ---- _dict_to_obj
     ps = paths.summarise(mod, d2o)
+    resolver_calls = []
     C, E, R = "tpm_type is Command", "TPMS_PARAMS.is_encrypted_params(dict_obj)", "tpm_type is Response"
     run.require(len(ps) >= 4, "C11: paths of _dict_to_obj not found")
     for p in ps:
         fx = p.effect_texts()
         kw = [e for k, e, _ in p.effects if k == "assign" and isinstance(e.value, ast.DictComp)]
-        okk = len(kw) == 1 and match(kw[0].value, "{M_k: _to_obj(get_attr_type(M_k), M_v) for M_k, M_v in dict_obj.items()}") is not None
+        okk = len(kw) == 1 and _resolver_call(kw[0].value) is not None
+        if okk:
+            # (the statement as written: the path summary has the caller's current values substituted into it)
+            raw = [s_ for s_ in walk_no_nested(d2o) if isinstance(s_, ast.Assign) and _resolver_call(s_.value) is not None]
+            if raw:
+                resolver_calls.append(_resolver_call(raw[0].value))
         kn = norm(kw[0].targets[0]) if kw else "?"
         T = "tpm_type.encrypted()" if p.truth(E) else "tpm_type"
         ok = okk and p.end == "return" and p.value_text() == f"{T}(**{kn})"
@@ -323,10 +359,56 @@ def a4(run, project, mod, roles):
         run.ob("A4", rets and not bad, f"{w}: the decoder's object is tpm_type(**values)", f"returns {[norm(r.value.elts[1]) for r in bad]}",
                module=roles.mod, node=bad[0] if bad else fn, func=w, construct=f"{w} object construction")
     # ---- area types resolved through the same tables as the decoder
-    gat = mod.functions().get("_dict_to_obj.get_attr_type")
-    if gat is None:
-        raise AnalysisError("C11: _dict_to_obj.get_attr_type not found")
-    nm = gat.args.args[0].arg
+    # the resolver is whatever function the conversion calls for a member's type: a closure of _dict_to_obj over (tpm_type,
+    # dict_obj, command_code), or a function that is handed those three - then its parameters are read as the caller's
+    # variables they are bound to (a parameter bound to anything but a plain variable is reported)
+    if not resolver_calls:
+        raise AnalysisError("C11: the member-type resolver of _dict_to_obj was not found")
+    rcall, kname = resolver_calls[0]
+    rname = rcall.func.id
+    gat = mod.functions().get(f"_dict_to_obj.{rname}")
+    gat_q = f"_dict_to_obj.{rname}"
+    if gat is not None:
+        okc = len(rcall.args) == 1 and not rcall.keywords and isinstance(rcall.args[0], ast.Name) and rcall.args[0].id == kname
+        run.ob("A4", okc, "the resolver is asked for the member being converted", f"resolver call `{norm(rcall)}`", module=mod, node=rcall,
+               func=d2o.name, construct="get_attr_type")
+        nm = gat.args.args[0].arg
+    else:
+        from .shared import locate_function
+        gm, gat0 = locate_function(project, mod, rname)
+        if gat0 is None or gat0.args.vararg or gat0.args.kwarg or gat0.args.posonlyargs:
+            raise AnalysisError(f"C11: member-type resolver `{rname}` not found")
+        gat_q = rname
+        import copy as _copy
+        gat = _copy.deepcopy(gat0)
+        params = [a.arg for a in gat.args.args + gat.args.kwonlyargs]
+        bound = dict(zip([a.arg for a in gat.args.args], rcall.args))
+        for k_ in rcall.keywords:
+            if k_.arg is not None:
+                bound[k_.arg] = k_.value
+        ren, nm, okc = {}, None, len(rcall.args) <= len(gat.args.args)
+        for p_ in params:
+            a_ = bound.get(p_)
+            if isinstance(a_, ast.Name) and a_.id == kname:
+                nm = p_
+            elif isinstance(a_, ast.Name):
+                ren[p_] = a_.id
+            else:
+                okc = False   # a default or a computed argument: the resolver no longer sees the caller's variable
+        run.ob("A4", okc and nm is not None, "the resolver is handed the member name and the caller's layout / dict / command code",
+               f"resolver call `{norm(rcall)}` does not bind every parameter of {rname} to a variable of _dict_to_obj", module=mod,
+               node=rcall, func=d2o.name, construct="get_attr_type")
+        if nm is None:
+            return
+        for n_ in ast.walk(gat):
+            if isinstance(n_, ast.Name) and n_.id in ren:
+                n_.id = ren[n_.id]
+            elif isinstance(n_, ast.arg) and n_.arg in ren:
+                n_.arg = ren[n_.arg]
+        for n_ in ast.walk(gat):
+            for c_ in ast.iter_child_nodes(n_):
+                c_._parent = n_
+        gat._parent = gm.tree
     base = f"next((f for f in fields(tpm_type) if f.name == {nm})).type"
     gps = paths.summarise(mod, gat)
     ft = None
@@ -338,7 +420,7 @@ def a4(run, project, mod, roles):
     ftx = [c for c in cand if "_type_maps" not in c]
     run.ob("A4", len(ftx) == 1 and match(paths.pattern_expr(ftx[0]), f"next((M_f for M_f in fields(tpm_type) if M_f.name == {nm})).type") is not None,
            "a field's declared type comes from the dataclass fields", f"get_attr_type resolves declared types as {ftx}", module=mod,
-           node=gat, func="_dict_to_obj.get_attr_type", construct="get_attr_type")
+           node=gat, func=gat_q, construct="get_attr_type")
     if len(ftx) == 1:
         FT = ftx[0]
         A, H = f"{FT} is Any", "hasattr(tpm_type, '_selectors')"
@@ -350,7 +432,7 @@ def a4(run, project, mod, roles):
             want = paths.decide(spec, FT, p)
             run.ob("A4", want == {p.value_text()}, f"get_attr_type [{label(p)[:70]}]",
                    f"area layouts are no longer looked up in the decoder's tables with the decoder's keys: returns `{p.value_text()}` "
-                   f"where {sorted(want)} is required", module=mod, node=p.node or gat, func="_dict_to_obj.get_attr_type",
+                   f"where {sorted(want)} is required", module=mod, node=p.node or gat, func=gat_q,
                    construct="get_attr_type")
     # ---- encrypted detection
     pm = project.module(PARAMS)
